@@ -337,6 +337,30 @@ impl MinCfg {
     }
 }
 
+/// "Stored state" fault: before the run, put the remains of some earlier result at the
+/// output path (`seed` 0 = leave it absent).  What a run writes must not depend on it.
+pub fn stale_output(path: &Path, seed: u64) -> bool {
+    if seed == 0 {
+        return false;
+    }
+    let mut r = verif_rt::rng::Rng::new(seed);
+    // log-uniform size, so that it is longer than the new result about as often as shorter
+    let bits = r.range(0, 19);
+    let len = (1usize << bits) + r.below(1u64 << bits) as usize;
+    let mut body = Vec::with_capacity(len);
+    let alphabet: &[u8] = b"ACGTacgt0123456789.,()\t >@+-eN";
+    while body.len() < len {
+        let line = r.usize(0, 200);
+        for _ in 0..line {
+            body.push(alphabet[r.below(alphabet.len() as u64) as usize]);
+        }
+        body.push(b'\n');
+    }
+    body.truncate(len);
+    std::fs::write(path, body).expect("stale output");
+    true
+}
+
 pub fn run_min(
     in_path: &str,
     out_path: &Path,
